@@ -192,7 +192,8 @@ pub fn random_op(rng: &mut Rng, names: &[String]) -> Op {
         0 => Op::SetRulesDir(rng.pick(&[MOUNT_A, MOUNT_A, MOUNT_A, MOUNT_A, MOUNT_B, "", "/sim/nonexistent", "/sim/A/Rules/prefs.yaml", "/sim/A", "Rules", "/sim/A/Rules/../Rules"]).to_string()),
         1 => Op::GetVersion,
         2 | 3 => Op::SetMathml(match rng.below(10) {
-            0..=5 => ExprRef::Pool(rng.below(n_valid)),
+            0..=3 => ExprRef::Pool(rng.below(n_valid)),
+            4 | 5 => ExprRef::Corpus(rng.below(pools::corpus().len())),
             6 => ExprRef::Feedback,
             _ => ExprRef::Bad(rng.below(pools::INVALID_EXPRS.len())),
         }),
